@@ -416,6 +416,54 @@ def rule_lastwrite(check, cm, rule):
                      '(plain overwrite = last write wins)' % short(a.node))
 
 
+def rule_dispatch_total(check, cx, rule):
+  """an event never raises into the code that fires it: each handler call is isolated by `except Exception`, and the handler
+  of that except cannot raise itself (drain_metric fires events after it removed the batch from the cache: an exception there
+  loses the batch)."""
+  from ..symeval import fmt_specs
+  ev = check.repo.cls('carbon.events', 'Event')
+  m = ev.methods.get('__call__')
+  if m is None:
+    rule.cannot_decide('carbon.events.Event.__call__ not found')
+    return
+  check.analysed(m)
+  vararg = m.node.args.vararg.arg if m.node.args.vararg else None
+  trys = [t for t in walk_no_nested(m.node, include_self=False) if isinstance(t, ast.Try)]
+  calls = [c for c in walk_no_nested(m.node, include_self=False) if isinstance(c, ast.Call) and
+           any(isinstance(a, ast.Starred) for a in c.args)]
+  if not calls:
+    rule.cannot_decide('Event.__call__: the handler call `handler(*args, **kwargs)` was not found')
+    return
+  for c in calls:
+    guards = [t for t in trys if any(x is c for b_ in t.body for x in ast.walk(b_))]
+    broad = [h for t in guards for h in t.handlers if h.type is None or dotted(h.type) in ('Exception', 'BaseException')]
+    if not broad:
+      rule.violate('handler exceptions escape', m, c, 'a handler raising an exception is not isolated by `except Exception` around `%s`: '
+                   'the exception propagates into the code that fired the event' % short(c))
+      continue
+    bad = None
+    for h in broad:
+      for x in ast.walk(h):
+        if isinstance(x, ast.Raise):
+          bad = (x, 're-raises')
+        if isinstance(x, ast.BinOp) and isinstance(x.op, ast.Mod) and isinstance(x.left, ast.Constant) and isinstance(x.left.value, str):
+          n = len(fmt_specs(x.left.value))
+          r = x.right
+          if isinstance(r, ast.Tuple):
+            if len(r.elts) != n:
+              bad = (x, 'has %d conversion(s) for %d value(s)' % (n, len(r.elts)))
+          elif n != 1 or (isinstance(r, ast.Name) and r.id == vararg):
+            bad = (x, 'formats `%s`, a tuple of any length, with %d conversion(s): TypeError unless exactly that many arguments '
+                      'were passed' % (unparse(r), n))
+        if isinstance(x, (ast.Subscript,)) and isinstance(x.ctx, ast.Load):
+          bad = (x, 'indexes `%s`, which can raise' % short(x))
+    if bad:
+      rule.violate('the isolating handler can raise', m, bad[0], 'the `except Exception` branch of Event.__call__ %s: the failure of one '
+                   'handler then escapes from the event call after all' % bad[1])
+    else:
+      rule.ok('handler call isolated by except Exception whose body cannot raise', m.loc(c))
+
+
 def rule_query_live(check, cm, rule):
   """a cache query answers from the cache as it is when the query arrives (no per-connection memory of earlier answers)."""
   from ..paths import PathExec, mentions
@@ -621,3 +669,5 @@ def run(check):
   rule_query_live(check, cm, r7)
   r8 = check.rule('R-C02-side-tables', 1, rule_side_tables.__doc__)
   rule_side_tables(check, cm, r8)
+  r9 = check.rule('R-C02-dispatch-total', 1, rule_dispatch_total.__doc__)
+  rule_dispatch_total(check, cm.cx, r9)
